@@ -5,9 +5,12 @@ ID = 'C09'
 PKG = 'pkg/streamwriter'
 HARNESS_FILES = ['pkg/frame/zz_verif_common.go', 'pkg/frame/zz_verif_dialect.go', 'pkg/frame/zz_verif_c02.go',
                  'pkg/frame/zz_verif_c05.go', 'pkg/frame/zz_verif_c06.go', 'pkg/frame/zz_verif_export.go',
-                 'pkg/frame/zz_verif_msgs.go', 'pkg/streamwriter/zz_verif_c09.go']
+                 'pkg/frame/zz_verif_msgs.go', 'pkg/streamwriter/zz_verif_c09.go', 'zz_verif_node.go', 'zz_verif_c11.go']
+KERNEL_PKGS = ['.']
+NATIVE_ROOT_PREFIXES = ('verifHarness_C09_', 'verifHarness_C07_')
 CLOCK_PKGS = ['pkg/streamwriter']
-ROOTS = ['streamwriter.verifHarness_']
+ROOTS = ['streamwriter.verifHarness_', r'v3\.verifHarness_C11_drain']
+TAG_FILTER = ('C09/', 'C07/', 'C11/K3/')
 ALLOW = 'bufio,io,encoding/binary,errors,bytes'
 INITS = 'io,bufio,errors,github.com/bluenviron/gomavlib/v3/pkg/message,github.com/bluenviron/gomavlib/v3/pkg/frame'
 OPTIONS = {'x25_uf': True}
@@ -23,6 +26,12 @@ def tasks(tier):
                 for raw in (0, 1):
                     ts.append(Task('verifHarness_C09_step', [version, keyed, shape, sl, raw]))
         ts.append(Task('verifHarness_C09_three', [version, keyed]))
+    for raw in (0, 1):
+        ts.append(Task('verifHarness_C09_wide_id', [raw]))
+    # frames originated by a node (encode in the caller, then the channel's stream writer): both link versions
+    for version in (1, 2):
+        for a in range(3):
+            ts.append(Task('verifHarness_C11_drain', [version, a], pkg='.'))
     ts.append(Task('verifHarness_C09_init', []))
     for raw in (0, 1, 2):
         ts.append(Task('verifHarness_C09_v1_big_id', [raw]))
@@ -30,13 +39,14 @@ def tasks(tier):
 
 
 def required_reach(tier):
-    return ['C09/S', 'C09/M', 'C09/I', 'C09/V']
+    return ['C09/S', 'C09/M', 'C09/I', 'C09/V', 'C09/W', 'C11/K3']
 
 
 def bounds(tier):
     return {'step': 'one Write from an arbitrary sequence-counter state (all 256 values at once), arbitrary system id >= 1, component id, '
                     'link id, key bytes, clock reading; message = arbitrary value of each of the 4 harness shapes (decoded or pre-encoded); '
                     'histories of any length follow by induction on nextSeqNumber',
+            'wide_ids': 'a dialect message with any id in (255, 2^24) on a v2 link, decoded or pre-encoded', 'node_level': 'Node.encodeMessage + Channel.runWriter draining 3 items on v1 and v2 links (kernel K3 of C11)',
             'crosscheck': '3 consecutive writes of mixed shapes from a fresh writer',
             'init': 'every (version int, system id, component id, key present/absent)',
             'string_lengths': 'shape 1 string lengths 0,2,4,5 (quick) / 0..6 (thorough), bytes symbolic'}
